@@ -281,15 +281,31 @@ def run(tier, only=None):
     jobs = [dict(scenario="scenario_registration", params=dict(tree=t)) for t in trees(mm, md)]
     for k in range(0, 5 if tier == "quick" else 7):
         jobs.append(dict(scenario="scenario_mapping", params=dict(k=k)))
+    # (d) the +-1 accounting inside the real send/recv coroutines: on the saturating message-plane benches a run in which every
+    #     message was processed must not be reported as Deadlock / MessageLoss, for every task order
+    from vlib import msgplane as MPL
+    from vlib import msgprop as MP
+    acct = []
+    for b in MPL.benches(tier):
+        if b["name"] in ("triangle-saturated", "two-producers", "diamond", "map-filter-volume", "fanout-forward"):
+            jobs.append(dict(module="vlib.msgplane", scenario="scenario", loop_bound=60, budget_s=600 if tier == "quick" else 3000,
+                             params=dict(bench=b["bench"], driver=b["driver"], permute=b.get("permute", True), acyclic=True, name=b["name"])))
+            acct.append(b["name"])
     if only:
-        jobs = [j for j in jobs if only in j["scenario"]]
-    ev.cov["bounds"] = {"hierarchies": f"every forest with <= {mm} models and depth <= {md} (+ empty names)",
+        jobs = [j for j in jobs if only in j["scenario"] or only in j["params"].get("name", "")]
+    msg_native = MP.make_native("C06")
+    reg_native = _native
+
+    def native(work, job, v, d):
+        return msg_native(work, job, v, d) if job.get("module") == "vlib.msgplane" else reg_native(work, job, v, d)
+    ev.cov["bounds"] = {"accounting": f"message-plane benches {acct} (real send/recv coroutines incl. THREAD_MSG_COUNT +-1, every task order, task-poll granularity)",
+                        "hierarchies": f"every forest with <= {mm} models and depth <= {md} (+ empty names)",
                         "mapping": "0..4 (thorough: 6) observers with symbolic mailbox lengths and a symbolic unprocessed-message count"}
     ev.cov["outside_claim"] = ["the in-flight message counter (THREAD_MSG_COUNT +-1 inside coroutines, folding when workers park) and "
                                "therefore 'never a false report on any schedule or thread count'",
                                "Observer::len == number of held messages (that is C12's obligation)",
                                "ProtoModel::build is a script that adds the sub-models of the tree; model init/handlers are coroutines (opaque)"]
-    rc = SP.run(PROP, tier, ev, "props.C06", jobs, native_replay=_native) if jobs else C.EXIT_OK
+    rc = SP.run(PROP, tier, ev, "props.C06", jobs, native_replay=native, only_labels=("C06:", "C11:")) if jobs else C.EXIT_OK
     if not only or only == "handoff":
         # part H (E3): the idle/park hand-off of the in-flight message count on the multi-threaded executor
         from props import C06h
@@ -316,6 +332,9 @@ def run(tier, only=None):
 
 def replay(path):
     ce = json.load(open(os.path.join(path, "counterexample.json")))
+    if "bench" in ce.get("params", {}):
+        from vlib import msgprop as MP
+        return MP.replay(PROP, path)
     work = C.WorkDir("mirse-C06")
     try:
         if ce.get("obligation", "").endswith("idle-handoff"):
